@@ -467,6 +467,27 @@ impl Exec {
         q
     }
 
+    /// `HandshakeState::dangerously_get_raw_split` (feature `risky-raw-split`): callable at any time.
+    pub fn raw_split(&mut self, sid: u32) -> Option<(Vec<u8>, Vec<u8>)> {
+        let op = format!("raw_split {sid}");
+        let Some((Sess::Hs(hs), _)) = self.sessions.get_mut(&sid) else {
+            self.record(op, "nosession".into());
+            return None;
+        };
+        let r = catch_unwind(AssertUnwindSafe(|| hs.dangerously_get_raw_split()));
+        match r {
+            Ok((a, b)) => {
+                self.record(op, format!("ok {} {}", hex(&a), hex(&b)));
+                Some((a.to_vec(), b.to_vec()))
+            },
+            Err(_) => {
+                self.panics += 1;
+                self.record(op, "panic".into());
+                None
+            },
+        }
+    }
+
     pub fn convert(&mut self, sid: u32, stateless: bool) -> Out {
         let op = format!("{} {}", if stateless { "to_stateless" } else { "to_transport" }, sid);
         let Some((sess, log)) = self.sessions.remove(&sid) else { return self.no_session(op) };
